@@ -99,7 +99,7 @@ class Engine:
             except AnalysisError:
                 pass
         try:
-            roles |= set(self.decoder_cycle)
+            roles |= set(self.decoder_cycle) - set(self.cycle_helpers)
         except AnalysisError:
             pass
         return roles
@@ -119,6 +119,16 @@ class Engine:
             return None
         nstmts = sum(1 for n in ast.walk(fi.node) if isinstance(n, ast.stmt))
         return fi if nstmts <= 40 else None
+
+    def is_inlined_helper(self, q: str) -> bool:
+        """A private helper that the term evaluator inlines at every call site (so its effects are analysed there, with the
+        arguments bound) and that is called from inside the package."""
+        fi = self.repo.funcs.get(q)
+        if fi is None or fi.is_property or q in self.role_functions or not fi.name.startswith("_") or fi.name.startswith("__"):
+            return False
+        if sum(1 for n in ast.walk(fi.node) if isinstance(n, ast.stmt)) > 40:
+            return False
+        return bool(self.res.callers_of(q))
 
     def init_only_fields(self, clsq: str) -> frozenset:
         """Instance fields stored in the constructor and nowhere else in the class (their value cannot be changed by a
@@ -338,23 +348,50 @@ class Engine:
         return self._one("map builder", self._methods_subscripting(self.message_cls, "PRNSIGMAP"))
 
     @cached_property
-    def group_routine(self) -> str:
-        """Member of the decoder cycle that iterates a group body repeatedly: a loop (of any kind) nested in a loop, the
-        inner one calling back into the cycle."""
-        c = []
+    def cycle_helpers(self) -> set[str]:
+        """Members of the decoder cycle that merely forward: one loop over a parameter calling the dispatcher for each element,
+        with no attribute access by name and no update of the index stack.  They are inlined by the term evaluator rather than
+        analysed as routines of their own (an extracted `for key in body: offset, index = self._set_attribute(...)`)."""
+        out = set()
+        disp = self.dispatch_routine
         for q in self.decoder_cycle:
+            if q == disp:
+                continue
+            f = self.repo.func(q)
+            selfn = f.params[0] if f.params else "self"
+            calls = [n for n in walk_no_nested(f.node) if isinstance(n, ast.Call)]
+            self_calls = [n for n in calls if isinstance(n.func, ast.Attribute) and isinstance(n.func.value, ast.Name) and n.func.value.id == selfn]
+            other_calls = [n for n in calls if n not in self_calls and not (isinstance(n.func, ast.Name) and n.func.id in ("list", "tuple", "iter", "enumerate", "reversed", "sorted", "len", "range"))]
+            stores = [n for n in walk_no_nested(f.node) if isinstance(n, (ast.Subscript, ast.Attribute)) and isinstance(n.ctx, (ast.Store, ast.Del))]
+            conds = [n for n in walk_no_nested(f.node) if isinstance(n, (ast.If, ast.IfExp, ast.While))]
+            if self_calls and all(f"{self.message_cls}.{n.func.attr}" == disp for n in self_calls) and not other_calls and not stores and not conds:
+                out.add(q)
+        return out
+
+    @cached_property
+    def group_routine(self) -> str:
+        """Member of the decoder cycle that iterates a group body repeatedly: a loop (of any kind) that updates the index stack
+        (an item store) and calls back into the cycle - directly in a nested loop, or through a forwarding helper."""
+        c = []
+        helpers = self.cycle_helpers
+        cyc_names = {q.rsplit(".", 1)[1] for q in self.decoder_cycle}
+        for q in self.decoder_cycle - helpers:
             f = self.repo.func(q)
             for n in walk_no_nested(f.node):
                 if isinstance(n, (ast.For, ast.While)):
                     inner = [x for x in ast.walk(n) if x is not n and isinstance(x, (ast.For, ast.While))]
-                    if any(isinstance(y, ast.Call) and isinstance(y.func, ast.Attribute) and isinstance(y.func.value, ast.Name) and y.func.value.id == "self" for x in inner for y in ast.walk(x)):
+                    nested = any(isinstance(y, ast.Call) and isinstance(y.func, ast.Attribute) and isinstance(y.func.value, ast.Name) and y.func.value.id == "self" for x in inner for y in ast.walk(x))
+                    via_helper = any(isinstance(y, ast.Call) and isinstance(y.func, ast.Attribute) and isinstance(y.func.value, ast.Name) and y.func.value.id == "self"
+                                     and f"{self.message_cls}.{y.func.attr}" in helpers for y in ast.walk(n))
+                    idx_store = any(isinstance(y, ast.Subscript) and isinstance(y.ctx, ast.Store) for y in ast.walk(n))
+                    if nested or (via_helper and idx_store):
                         c.append(q)
                         break
         return self._one("group routine", c)
 
     @cached_property
     def optional_routine(self) -> str:
-        c = [q for q in self.decoder_cycle if q not in (self.group_routine, self.dispatch_routine)]
+        c = [q for q in self.decoder_cycle - self.cycle_helpers if q not in (self.group_routine, self.dispatch_routine)]
         return self._one("optional-group routine", c)
 
     @cached_property
